@@ -9,6 +9,11 @@ TB = "CPython 3.12, crosshair-tool 0.0.110, z3 5.1; the import shim of lib/repo_
 
 # id -> (category, technique, text, note, design_ref, engine)
 CHECKS = {
+    "C13": ("model_checking",
+            "solver-enumerated (CrossHair/z3) configurations through the real FunctionType.instantiate_partial / instantiate / unquantified, Instantiator, Param.with_idx / instantiate_bounds and partially_monomorphize_args / compile_variable_idx; composition laws and hand-written textual substitution as oracle",
+            "Restricted to the type level: generic signatures over 3 parameters (8 kind vectors mixing type, nat-const and dependent-const parameters), all 8 first-stage masks, 2 arguments per parameter, 8 occurrence-shape vectors: partial-then-rest == all-at-once == textual substitution, "
+            "remaining parameters renumbered 0..k-1 with every bound variable referring to one of them, unquantified+solution == instantiate; the monomorphisation split agrees with require_monomorphization after instantiation and compile_variable_idx is the order-preserving bijection.",
+            TB + "; hand-written textual substitution for the shapes used", "DESIGN.md §5 C13", "E1"),
     "C15": ("model_checking",
             "CrossHair/z3 symbolic execution of the real overload-resolution loop with stand-in variants (symbolic success pattern), plus solver-enumerated real overload sets through the real check() compared with the direct calls of their variants",
             "Restricted: (1) OverloadedFunctionDef.check_call / synthesize_call with 1..4 variants that succeed or raise per symbolic bools: first success wins, nothing after it is consulted, rejected with OverloadNoMatchError iff all raise, hint complete; "
